@@ -190,6 +190,14 @@ PX("C07", "C07_actors", "Every request terminates: no deadlock between topic and
  ("C07_original_deadlocks_K2", "C07_refuted_without_drain", "the pinned code (delete does not drain): a reachable state with a Publish and a Delete pending and no step enabled (capacity 2)"),
  ("C07_original_deadlocks_K16", "C07_refuted_without_drain_16", "the same with the real capacity 16 - the schedule of findings/replays/C07-publish-delete-deadlock.cases"),
 ])
+HDR_LOCKS = "From Coq Require Import List Arith Bool Lia.\nImport ListNotations.\nFrom Deltio Require Import Model.Locks Proofs.LocksP.\n"
+PX("C07", "C07_locks", "Every request terminates: no deadlock on the managers' and the registry's locks", HDR_LOCKS, "LocksP.v", [
+ ("C07_locks_no_deadlock", "locks_no_deadlock", "OS threads running synchronous critical sections over reader/writer locks, any number of threads and locks, any granting policy that gives a lock nobody holds to one of its waiters (any fairness): if every thread acquires a lock only while all locks it holds have a strictly smaller rank, every reachable state with an unfinished thread has a step"),
+ ("C07_locks_no_deadlock_edges", "locks_no_deadlock_edges", "the same from a set of nesting edges (held lock, acquired lock) that respects a rank function - the form instantiated with the edges /verif/lockscan extracts from /repo on every run (Gen/LockCheck.v: deltio_no_lock_deadlock)"),
+ ("C07_locks_step_decreases", "locks_step_decreases", "every step consumes one action of one thread: executions are finite, so never stuck means every critical section ends"),
+ ("C07_locks_policies", "locks_policies", "the assumption on the granting policy is met by locks treated as mutexes and by the most permissive policy"),
+ ("C07_locks_embrace_refuted", "locks_embrace_refuted", "without the rank discipline the statement is false: two threads nesting two locks in opposite orders reach a state with no step (what the round-4 seeded change to the push loop introduces)"),
+])
 PX("C16", "C16_actors", "Abandoned requests have all-or-nothing effect", HDR_ACTORS, "ConcActorsP.v", [
  ("C16_exists_implies_attached", "C16_attached", "actor model with drops of any client at any pending point: at every quiescent reachable state every subscription that exists, is not deleted and whose topic lives is attached to that topic"),
  ("C16_never_wedged", "C16_no_wedge", "after any continuation, drops included, the server can still make progress whenever something is outstanding"),
